@@ -5,6 +5,7 @@ import (
 	"os"
 	"os/exec"
 	"path/filepath"
+	"strconv"
 	"strings"
 	"time"
 
@@ -584,6 +585,193 @@ func jsArr(xs []int64) string {
 	var p []string
 	for _, x := range xs {
 		p = append(p, fmt.Sprint(x))
+	}
+	return "[" + strings.Join(p, ",") + "]"
+}
+
+// tsStepMessages explains the failure codes of verifStep (corpus.TSStepEpilogue).
+var tsStepMessages = map[int]string{
+	1: "C06 (step): the table has an error entry for the lookahead but the driver returned a result",
+	2: "C06 (step): the table has an error entry for the lookahead but the driver went on to request another token",
+	3: "C01 (step): the driver ran an action the table does not ask for",
+	4: "C01/C02 (step): the table accepts here but the driver returned null",
+	5: "C01 (step): the table accepts here but the driver requested another token first",
+	6: "C07 (step): the value returned is not the value of the start symbol on the stack",
+	7: "C06 (step): a code that is no token of the grammar is shifted",
+	8: "C01/C02 (step): the table shifts the lookahead but the driver did not go on to the next token",
+	9: "C01/C07 (step): the table reduces but no further action ran",
+	10: "C01/C07 (step): the action that ran is not the action of the rule the table selected",
+	11: "C01 (step): stack depth after the step differs from the LR machine's",
+	12: "C01 (step): a state on the stack differs from the LR machine's",
+	13: "C01 (step): a symbol on the stack differs from the LR machine's",
+	14: "C07 (step): a value on the stack is not the value the actions compute",
+}
+
+// tsStepJob is the step lemma for the emitted TypeScript driver: the harness is TypeScript text
+// in the grammar's epilogue (corpus.TSStepEpilogue), executed symbolically by tsmini; the
+// configuration (a path of the emitted automaton, arbitrary values and stale slots) and the
+// lookahead are chosen here. Violations are replayed under node with the same text.
+func (c *Ctx) tsStepJob(eng *gosym.Engine, s *corpus.Spec, d *Dump, tsPath string, D int, tag string) {
+	src, err := os.ReadFile(tsPath)
+	if err != nil {
+		c.Inconclusive("%s: %v", s.Name, err)
+		return
+	}
+	prog, err := tsmini.Parse(string(src))
+	if err != nil {
+		c.Inconclusive("%s: emitted TypeScript is outside the tsmini subset: %v", s.Name, err)
+		return
+	}
+	nsym := len(s.Toks) + len(s.NTs)
+	ids := make([]int, nsym)
+	for i, t := range s.Toks {
+		ids[i] = d.symByRef(t.Ref())
+	}
+	for i, n := range s.NTs {
+		ids[len(s.Toks)+i] = d.symByRef(n)
+	}
+	for _, id := range ids {
+		if id < 0 {
+			c.Inconclusive("%s: a symbol of the specification is missing in the dump", s.Name)
+			return
+		}
+	}
+	num := func(v int) *gosym.Term { return gosym.ConstInt(64, int64(v)) }
+	arr := func(xs []*gosym.Term) *tsmini.Array {
+		a := &tsmini.Array{}
+		for _, x := range xs {
+			a.Elems = append(a.Elems, x)
+		}
+		return a
+	}
+	inRange := func(st *gosym.State, name string, lo, hi int) int {
+		t := st.Fresh(name, 64)
+		st.Assume(gosym.And(gosym.Cmp(gosym.OpSLe, num(lo), t), gosym.Cmp(gosym.OpSLe, t, num(hi))))
+		return st.ConcInt(t)
+	}
+	name := fmt.Sprintf("%s/ts step D=%d", s.Name, D)
+	cfg := eng.Cfg
+	vlog("start %s", name)
+	rep := eng.ExploreFunc(name, func(st *gosym.State) {
+		in := tsmini.New(st, prog)
+		in.MaxLoop = 2000
+		defer func() {
+			if r := recover(); r != nil {
+				switch x := r.(type) {
+				case *tsmini.Throw:
+					st.Assert(gosym.False, "C06 (step): the TypeScript driver crashed ("+x.Kind+": "+x.Msg+")")
+				case tsmini.Unsupported:
+					st.End("unsupported", "tsmini: "+x.What)
+				default:
+					panic(r)
+				}
+			}
+		}()
+		errA, accA := tsInt(in.Global("ERROR_ACTION")), tsInt(in.Global("ACCEPT_ACTION"))
+		n := inRange(st, "depth", 1, D)
+		slots := inRange(st, "slots", n, D)
+		sq, sid, sx := []*gosym.Term{num(0)}, []*gosym.Term{num(1)}, []*gosym.Term{num(-1)}
+		sv, sw := []*gosym.Term{num(0)}, []*gosym.Term{num(0)}
+		cur := 0
+		for i := 1; i < n; i++ {
+			x := inRange(st, "sym", 0, nsym-1)
+			q := tsInt(in.Call("verifAct", num(cur), num(ids[x])))
+			if q <= 0 || q == errA || q == accA {
+				st.Assume(gosym.False)
+				return
+			}
+			cur = q
+			sq, sid, sx = append(sq, num(q)), append(sid, num(ids[x])), append(sx, num(x))
+			sv, sw = append(sv, st.Fresh("sv", 64)), append(sw, st.Fresh("sw", 64))
+		}
+		for i := n; i < slots; i++ {
+			// stale slots: arbitrary contents
+			sq, sid, sx = append(sq, st.Fresh("gq", 64)), append(sid, st.Fresh("gx", 64)), append(sx, num(-1))
+			sv, sw = append(sv, st.Fresh("gv", 64)), append(sw, st.Fresh("gw", 64))
+		}
+		var idT []*gosym.Term
+		for _, id := range ids {
+			idT = append(idT, num(id))
+		}
+		tok, tv := st.Fresh("c", 64), st.Fresh("v", 64)
+		res := in.Call("verifStep", num(n), arr(sq), arr(sid), arr(sx), arr(sv), arr(sw), arr(idT), tok, tv)
+		code := tsInt(res)
+		switch {
+		case code == 0:
+			st.Cover("ts-step")
+		case code == 100:
+			st.Assume(gosym.False)
+		default:
+			msg := tsStepMessages[code]
+			if msg == "" {
+				msg = fmt.Sprintf("step harness returned %v", res)
+			}
+			st.Assert(gosym.False, msg+" [typescript]")
+		}
+		for _, f := range in.FunctionsEncoded() {
+			st.Note(f)
+		}
+	}, &cfg)
+	c.absorb(name, rep)
+	seen := map[string]bool{}
+	for _, v := range rep.Violations {
+		key := fmt.Sprintf("%s:%s:ts-step:%s", tag, s.Name, v.What)
+		if seen[key] || len(seen) >= 2 {
+			continue
+		}
+		seen[key] = true
+		c.confirmTSStep(prog, s, ids, v, key)
+	}
+}
+
+// confirmTSStep rebuilds the configuration of a model and calls the same verifStep under node.
+func (c *Ctx) confirmTSStep(prog *tsmini.Program, s *corpus.Spec, ids []int, v gosym.Violation, key string) {
+	dir := c.Scratch()
+	get := func(name string, k int) int64 { return int64(v.Model[fmt.Sprintf("%s!%d", name, k)]) }
+	n, slots := int(get("depth", 0)), int(get("slots", 0))
+	js := prog.StripTypes()
+	var b strings.Builder
+	b.WriteString(js)
+	b.WriteString("\n;(function(){\n")
+	fmt.Fprintf(&b, "const ids = %s;\n", jsArrInt(ids))
+	b.WriteString("let sq=[0], sid=[1], sx=[-1], sv=[0], sw=[0], cur=0;\n")
+	for i := 1; i < n; i++ {
+		x := get("sym", i-1)
+		fmt.Fprintf(&b, "{ const x=%d; const q=verifAct(cur, ids[x]); cur=q; sq.push(q); sid.push(ids[x]); sx.push(x); sv.push(%d); sw.push(%d); }\n", x, get("sv", i-1), get("sw", i-1))
+	}
+	for i := n; i < slots; i++ {
+		fmt.Fprintf(&b, "sq.push(%d); sid.push(%d); sx.push(-1); sv.push(%d); sw.push(%d);\n", get("gq", i-n), get("gx", i-n), get("gv", i-n), get("gw", i-n))
+	}
+	b.WriteString("let r; const ce=console.error; console.error=function(){};\n")
+	fmt.Fprintf(&b, "try { r = verifStep(%d, sq, sid, sx, sv, sw, ids, %d, %d) } catch(e) { r = 'crash: '+e }\n", n, get("c", 0), get("v", 0))
+	b.WriteString("console.error=ce; console.log('VERIF-STEP '+r);\n})();\n")
+	jsPath := filepath.Join(dir, "step_"+sanitize(key)+".js")
+	os.WriteFile(jsPath, []byte(b.String()), 0o644)
+	path := filepath.Join(VerifDir, "replays", c.ID, sanitize(key)+".json")
+	out, err := runWithTimeout(exec.Command("node", jsPath), 60*time.Second)
+	res := ""
+	for _, l := range strings.Split(out, "\n") {
+		if strings.HasPrefix(l, "VERIF-STEP ") {
+			res = strings.TrimPrefix(l, "VERIF-STEP ")
+		}
+	}
+	WriteJSON(path, map[string]interface{}{"property": c.ID, "key": key, "kind": "typescript-step", "grammar": s.Name, "what": v.What,
+		"model": modelInts(v), "node_result": res, "grammar_text": s.TSText(),
+		"replay": "generate the TypeScript parser, blank the type annotations, rebuild the configuration from the model (depth, sym!i, sv/sw, stale slots) and call verifStep(...) under node: a result other than 0 or 100 confirms"})
+	switch {
+	case err != nil && res == "":
+		c.Inconclusive("%s: node replay failed: %v %s", key, err, tailStr(out, 200))
+	case res == "0" || res == "100":
+		c.Inconclusive("%s: tsmini found a violation (%s) that node does not reproduce (verifStep = %s): tsmini suspect, replay=%s", key, v.What, res, path)
+	default:
+		c.Report(key, v.What+fmt.Sprintf(" — grammar %s, node: verifStep = %s", s.Name, res), path)
+	}
+}
+
+func jsArrInt(xs []int) string {
+	var p []string
+	for _, x := range xs {
+		p = append(p, strconv.Itoa(x))
 	}
 	return "[" + strings.Join(p, ",") + "]"
 }
